@@ -160,15 +160,17 @@ CHECKS = {
  "C11": dict(
    text="Coq theorems over the value-level bn256 model (Models/Bn.v: F_p, F_p^2, Jacobian add/double/scalar-mul with the "
         "formulas of curve.go/twist.go, the codecs of point.go): every point of the G1 curve in any Jacobian representation "
-        "(identity included) decodes back to its affine form after encoding (C11_roundtrip_g1); fixed lengths 64/129/32; G1 "
-        "encodings are injective on affine points; too-short input is an error; whatever decodes satisfies the curve equation "
+        "(identity included) decodes back to its affine form after encoding (C11_roundtrip_g1), and so does every element of "
+        "G2 - twist point passing the [Order]P = O test, identity included (C11_roundtrip_g2; the generator is shown to satisfy "
+        "the premise by an 80 s vm_compute of the subgroup test, compiled once); fixed lengths 64/129/32; G1 and G2 "
+        "encodings are injective on affine points (C11_injective_g1/g2); too-short input is an error; whatever decodes satisfies the curve equation "
         "and, for G2, [Order]P = O (C11_decoded_in_subgroup_g2); scalars round-trip and decode only from 32-byte values below "
         "the order. The decoders are total functions into option (no panic by type). Tie: correspondence of the extracted "
         "model (it recomputes curve membership and the 254-bit subgroup multiplication itself) with the real UnmarshalBinary / "
         "MarshalBinary on 1700 byte strings: every length 0..2*size, bit flips, coordinate swaps, unreduced coordinates, zero "
         "coordinates, twist points outside the subgroup (built with an F_p^2 square root), random bytes, receiver reuse; plus "
         "go-ethereum's big-integer bn256 as independent reference for canonical encodings.",
-   note=TB + "G2 round-trip and injectivity, and everything about GT, are established by the correspondence run and the "
+   note=TB + "Everything about GT is established by the correspondence run and the "
         "judge, not by a theorem (GT decoding checks length only, as in the code). Curve constants are copied into the model "
         "and checked by the run (Base encodings).",
    technique="Coq proof (byte-codec lemmas + case analysis of the decoders over the concrete curve) + differential "
@@ -204,11 +206,15 @@ CHECKS = {
         "registrations, cancellations, watchdog sweeps, any interleaving, any number of requests) the shares handed to a "
         "never-cancelled request are exactly the arrivals for its id, each once, in arrival order, wherever its registration falls "
         "(C13_exactly_once, by an invariant over the event list); a delivered share always arrived for an id its receiver "
-        "registered (C13_no_crossover); deleting all events of other requests changes nothing for this one (C13_frame). The "
+        "registered (C13_no_crossover); deleting all events of other requests changes nothing for this one (C13_frame); a request id "
+        "registered AGAIN with a fresh handle after any history - earlier registration live, cancelled or swept - receives what "
+        "was buffered since plus every later arrival exactly once (C13_reregistration, C13_reregistration_over_old_entry). The "
         "pre-repair map lookup is refuted by the witness [Peer \"\" s]. Tie: the REAL loop is driven through the dosnode verif "
         "constructor over an in-memory p2p double with unbuffered channels (events serialised), exhaustively for all sequences of "
-        "<= 4 events over 2 ids and <= 3 over 3 ids (thorough: 6 / 5) incl. the empty request id, plus random sequences with "
-        "duplicate deliveries; result classes deliveries / panic / wedged are compared with the extracted model and with an "
+        "<= 4 events over 2 ids and <= 3 over 3 ids (thorough: 6 / 5) incl. the empty request id, all sequences with a second "
+        "registration of an id (<= 5 events over 1 id, <= 4 over 2; thorough 7 / 5), plus random sequences with "
+        "duplicate deliveries; an end-to-end family runs real handleQuery on every member with request ids of 32, 31, 30, 17, 1 "
+        "and 0 bytes, shares early or late relative to the submitter's registration (the id on the wire must be the id registered); result classes deliveries / panic / wedged are compared with the extracted model and with an "
         "independent judge.",
    note=TB + "Environment assumption (stated in the model): a live request's reader takes every offered share; a cancelled "
         "request has no reader. The 30-minute watchdog branch is in the model and the theorems but cannot be fired by the harness "
@@ -262,7 +268,9 @@ CHECKS = {
         "flips a bit at a random position of the post-handshake frame i (body or length header), truncates it (consistently or "
         "raw), appends an altered copy, injects random frames, or replays it; (b) a raw peer that completes the real handshake, "
         "holds the session key and sends packets with absent / garbage / other-key / other-content signatures, a swapped payload, "
-        "an unknown type, no payload, a non-package plaintext, an unsealed frame. The subscribers' deliveries (compared "
+        "an unknown type, no payload, a non-package plaintext, an unsealed frame. Every third scenario uses all six message types the protocol packages exchange, "
+        "each with its own subscriber (dkg.PublicKey / vss.PublicKey, dkg.Responses / vss.Responses share their bare names). "
+        "The subscribers' deliveries (compared "
         "byte-for-byte with what was sent) are compared with the extracted model on the same symbolic stream (guaranteed "
         "prefix) and judged: only sent messages, each at most once, right subscriber, complete when untampered, no crash.",
    note=TB + "Hypotheses built into the frame representation: AES-GCM integrity, BLS unforgeability, secrecy of the session key. "
@@ -285,8 +293,9 @@ CHECKS = {
         "(C17_cancel_returns, C17_conn_done_fails_pending). Tie: (a) the REAL dispatch goroutine on harness-owned channels, driven "
         "event by event with random scripts, nonce assignment and every return compared with the extracted model; (b) a real "
         "server sending 1..200 concurrent requests to 1..4 real responder servers that answer in random order with random delays "
-        "and drop a random subset, callers cancelling at random times, a responder leaving mid-flight, a peer that refuses the "
-        "connection and one that accepts it and stays silent: every returned reply must embed the request's own tag and "
+        "and drop a random subset, callers cancelling at random times, a responder leaving mid-flight, a responder that goes away and comes back "
+        "under the same id at a new address (requests made afterwards must be served over a fresh connection), a peer that "
+        "refuses the connection and one that accepts it and stays silent: every returned reply must embed the request's own tag and "
         "responder, errors must be prompt, and requests to reachable peers must still be answered.",
    note=TB + "partial: 'promptly' is observed as wall-clock bounds (cancellation + 1.5 s, 6.5 s overall), not proved; scheduler "
         "fairness is runtime. Residual, recorded in DESIGN.md: the call handler still dials and shakes hands synchronously, so "
@@ -303,7 +312,14 @@ CHECKS = {
         "(2) handleReq's loop over the RPC endpoints with its classification of error texts: every endpoint receives a call at "
         "most once (C19_sent_once), nothing is sent and the answer does not change after an accept, revert or "
         "insufficient-funds answer whatever endpoints follow (C19_no_resend), any other answer moves on to the next live "
-        "endpoint and the caller gets the last answer (C19_retry_next, C19_dead_endpoint_skipped). Tie: a REAL ethAdaptor "
+        "endpoint and the caller gets the last answer (C19_retry_next, C19_dead_endpoint_skipped); (3) Models/Adaptor.v, the "
+        "adaptor over a whole history of reads (get), single calls and bursts of queued calls, calls leaving the request queue "
+        "one at a time, reads and writes sharing the per-endpoint contexts, all endpoints views of one account: the accepted "
+        "transactions of ANY history carry consecutive nonces - no two calls share one, none is lost to 'nonce too low' against "
+        "its neighbour (C19_nonces_consecutive, C19_nonces_distinct), k calls queued together become k transactions "
+        "(C19_burst_all_accepted), an endpoint is switched off only by its own closed-connection answer to a read or its own "
+        "nonce-retrieval failure on a write (C19_switched_off_only_when_blamed), so a call after reads that failed otherwise "
+        "fails over as if they had not happened (C19_write_after_reads). Tie: a REAL ethAdaptor "
         "(NewEthAdaptor + Connect) against 1..3 in-process JSON-RPC / WebSocket endpoints (go-ethereum rpc server answering the "
         "bridge look-ups, eth_getTransactionCount, eth_sendRawTransaction): (a) each call with generated arguments (0, 2^256-1, "
         "leading zero bytes, results of 0..1 MiB, indices that do not fit uint8): the calldata of the raw transaction the "
@@ -312,7 +328,11 @@ CHECKS = {
         "(b) every assignment of {accept, revert, insufficient funds, nonce failure, other error} to 1..3 endpoints, followed by "
         "a second call on the same adaptor (endpoints switched off stay off): which endpoints received the call, the "
         "caller's result class and the switched-off endpoints are compared with the model and judged (at most one accept, "
-        "nothing after a final answer, at most once per endpoint, nil error iff accepted).",
+        "nothing after a final answer, at most once per endpoint, nil error iff accepted); (c) random histories of reads "
+        "(GroupSize with per-endpoint value / 'header not found'-class error / closed connection), single calls and bursts of "
+        "2..4 concurrent calls on one adaptor whose endpoints share one account (nonce answered after 60 ms during a burst, "
+        "stale nonces rejected as geth does), closed by a probe call: per step which endpoints received the call, the result "
+        "class and the accepted nonces are compared with the extracted model and judged by the harness's own book-keeping.",
    note=TB + "The bindings' own ABI packing and transaction signing are go-ethereum code, observed (decoded calldata and "
         "recovered sender are what is compared), not modelled. The code recognises revert / funds / nonce answers by error-text "
         "substrings; the model copies that classification and the endpoints produce several spellings. 'use of closed network "
